@@ -215,6 +215,22 @@ def run_schedule(ctx, rng, idx, state, nworkers, same_text, word, label, variant
         bad = check_db_after(ctx, db, None)
         if bad:
             ctx.violation("C02:" + bad[0], "%s (schedule %s, database %s)" % (bad[1], label, state), case)
+        # what a call stored must still be there at the end, unless some call pruned with expiration 0 or a
+        # database call failed (then the text was parsed without the cache): nobody may drop another call's entry
+        clean_run = all(e[2] == "ok" for e in hub.events) and all(x == 30 for x in expd) and all(r and r[0] == "ok" for r in results)
+        if clean_run and not bad:
+            try:
+                c = sqlite3.connect("file:%s?mode=ro" % db, uri=True)
+                have = {h for (h,) in c.execute("SELECT txt_hash FROM models WHERE pymoca_version=?", (VERSION,))}
+                c.close()
+                ctx.monitor("stored_entries_checked")
+                missing = [i for i, t in enumerate(wtexts) if hashlib.sha256(t.encode("utf-8")).hexdigest() not in have]
+                if missing:
+                    ctx.violation("C02:entry-stored-by-one-call-deleted-by-another",
+                                  "after the run the database has no entry for the text of worker(s) %s although every database call "
+                                  "succeeded and nobody pruned (schedule %s, database %s)\nschedule: %s" % (missing, label, state, sig), case)
+            except sqlite3.Error:
+                pass
     finally:
         pymoca.__version__ = saved_version
         if hasattr(parser.parse, "initialized_dbs"):
